@@ -21,7 +21,7 @@ func main() {
 			cfgs := hn.FSConfigs(tier)
 			for _, j := range hn.FSJobList(tier) {
 				if j.Long {
-					n = append(n, fmt.Sprintf("%s long histories over %v", cfgs[j.Cfg], hn.FSLongOps(cfgs[j.Cfg])))
+					n = append(n, fmt.Sprintf("%s long histories over %v", cfgs[j.Cfg], j.LongOps(cfgs[j.Cfg])))
 					continue
 				}
 				n = append(n, fmt.Sprintf("%s first=%s", cfgs[j.Cfg], hn.FSOps(cfgs[j.Cfg])[j.First]))
